@@ -393,13 +393,71 @@ class Project:
             raise AnalysisError(f"anchor method {module}:{name} not found")
         if name in m.functions:
             return m.functions[name]
+        g = self._recover_function(m, name)
+        if g is not None:
+            return g
         raise AnalysisError(f"anchor function {module}:{name} not found")
+
+    def _recover_function(self, m: "Module", name: str) -> Optional[FuncInfo]:
+        """a private module-level routine that was renamed: the unique function of the module with nearly the same name"""
+        import difflib
+        if not name.startswith("_"):
+            return None
+        stem = name.strip("_").lower()
+        cands = []
+        for g in m.functions.values():
+            gs = g.name.strip("_").lower()
+            same_words = sorted(w_ for w_ in stem.split("_") if w_) == sorted(w_ for w_ in gs.split("_") if w_)
+            if g.name.startswith("_") and (same_words or difflib.SequenceMatcher(None, stem, gs).ratio() >= 0.85):
+                cands.append(g)
+        if len(cands) != 1:
+            return None
+        if not hasattr(self, "recovered"):
+            self.recovered = []
+        self.recovered.append((f"{m.name}:{name}", cands[0].qualname))
+        return cands[0]
 
     def method(self, cls: ClassInfo, name: str) -> FuncInfo:
         f = self.lookup_method(cls, name)
         if f is None:
+            f = self._recover_anchor(cls, name)
+        if f is None:
             raise AnalysisError(f"anchor method {cls.qualname}.{name} not found")
         return f
+
+    def _recover_anchor(self, cls: ClassInfo, name: str) -> Optional[FuncInfo]:
+        """A private routine that a refactoring renamed or moved out of its class: the unique method of the class (MRO) or
+        function of its module whose name is nearly the same (same words, underscores / a prefix aside). Public names are
+        never recovered (they are API). The recovery is recorded in `self.recovered`."""
+        import difflib
+        if not name.startswith("_") or (name.startswith("__") and name.endswith("__")):
+            return None
+        stem = name.strip("_").lower()
+        cands = []
+        pool = []
+        for c in self.mro(cls):
+            pool.extend(c.methods.values())
+        pool.extend(cls.module.functions.values())
+        for g in pool:
+            gs = g.name.strip("_").lower()
+            if not g.name.startswith("_"):
+                continue
+            ratio = difflib.SequenceMatcher(None, stem, gs).ratio()
+            same_words = sorted(w_ for w_ in stem.split("_") if w_) == sorted(w_ for w_ in gs.split("_") if w_)
+            if gs == stem or same_words or ratio >= 0.85 or (len(stem) >= 8 and (stem in gs or gs in stem) and ratio >= 0.7):
+                cands.append((ratio, g))
+        uniq = {}
+        for r, g in cands:              # an override shadows the methods it overrides (pool is in MRO order)
+            uniq.setdefault(g.name, (r, g))
+        if len(uniq) != 1:
+            return None
+        g = list(uniq.values())[0][1]
+        if g.is_abstract:
+            return None
+        if not hasattr(self, "recovered"):
+            self.recovered = []
+        self.recovered.append((f"{cls.qualname}.{name}", g.qualname))
+        return g
 
     def setter(self, cls: ClassInfo, name: str) -> Optional[FuncInfo]:
         for c in self.mro(cls):
